@@ -947,6 +947,9 @@ pub fn run_world(opt: &OptSet, ops: &[Op], probe_keys: &[&[u8]]) -> WorldRun {
 				);
 			}
 			if let Some(s) = w.shape() {
+				if std::env::var("VERIF_DEBUG").is_ok() {
+					eprintln!("step {i} {}: tracker={:?} shape={:?}", op.short(), w.tree().verif_tracker_dump(), s);
+				}
 				shapes.push(shape_hash(&s, w.model.len()));
 			}
 		}
